@@ -85,6 +85,20 @@ class Rig:
             log.append(['boom'])
             raise EXC_TYPES[rig.exc](MARKER)
 
+        import pjrpc.server as _srv
+
+        class VerifBadView(_srv.ViewMixin):
+            """A class-based view whose constructor fails: the failure surfaces outside the method call (-32603)."""
+
+            def __init__(self, *a):
+                log.append(['vfail-ctor'])
+                raise RuntimeError(MARKER)
+
+            def vfail(self):
+                log.append(['vfail'])
+                return 1
+
+        self.d.view(VerifBadView)
         fns = {'echo': echo, 'two': two, 'perr': perr, 'boom': boom}
         for name, fn in fns.items():
             if as_coroutines:
